@@ -7,7 +7,9 @@ THEOREMS_C14 = ["Slock.C14T." + t for t in (
     "chunking_regression", "lone_lf_depends_on_chunking",
     "normalisation_key", "normalisation_copies_equal", "normalisation_id", "normalisation_length",
     "text_eq_binary", "render_plus_one", "render_parses_back",
-    "every_result_code_has_rendering", "error_msg_complete")]
+    "every_result_code_has_rendering", "error_msg_complete",
+    "parse_build_response_ok", "parse_build_response_error", "parse_build_response_error_bare", "parse_build_response_bulk",
+    "parse_build_response_array", "chunking_invariant_response", "response_chunking_regression", "response_parser_gaps")]
 THEOREMS_C13 = ["Slock.C13T." + t for t in (
     "convert_no_panic_lock", "args2flag_no_panic", "args2flag_missing_value", "args2flag_accepts_valid",
     "set_ex_rejected", "append_px_rejected", "setex_short_rejected", "incr_ex_rejected",
@@ -23,6 +25,8 @@ FINISH = {"level": "proof", "assumptions": [
 
 def classify(op, impl):
     t = op.split(" ")
+    if t[0] == "textrparse":
+        return (t[0], impl.split(";")[-1], impl[:1], min(impl.count("|"), 3), min(t[1].count(","), 4))
     if t[0] == "textparse":
         return (t[0], impl.split(";")[-1], min(impl.count("|"), 3), min(t[1].count(","), 4))
     if t[0] in ("lockkey", "lockid"):
@@ -59,7 +63,7 @@ def _run(ctx, prefixes, theorems, modules):
     for pkg in ("protocol", "server"):
         if not os.path.exists(os.path.join(vlib.VERIF, "go/harness", pkg, "zz_verif_text_test.go")):
             continue
-        exe = ctx.build_harness(pkg, only=["zz_verif_text_test.go"])
+        exe = ctx.build_harness(pkg, only=["zz_verif_text_test.go", "zz_verif_textresp_test.go"])
         if not exe:
             continue
         outdir = ctx.run_harness(exe, "text", n, extra=extra)
